@@ -429,6 +429,23 @@ TMigrateResp ==
   /\ pend' = NoPend
   /\ UNCHANGED <<vars, rot, atag>>
 
+(* an HTTP request that does not pass validation, the liveness probe that   *)
+(* follows every input, and shutdown with connections left open            *)
+THttp ==
+  /\ Ev.a = "Http"
+  /\ ("Http" \in Strict =>
+        /\ ~Ev.panic                                  \* no handler panic was logged
+        /\ Ev.status \in HttpExpected(Ev.ep, Ev.method, Ev.cls)
+        /\ Ev.probe = 200)                            \* other requests keep being answered
+  /\ UNCHANGED vars /\ KeepAux
+TConns ==
+  /\ Ev.a = "Conns"     \* the driver left TCP connections idle / half sent
+  /\ UNCHANGED vars /\ KeepAux
+TLogPanics ==
+  /\ Ev.a = "LogPanics"
+  /\ ("Http" \in Strict => Ev.n = 0)
+  /\ UNCHANGED vars /\ KeepAux
+
 (* TCP sync: first critical section (device data), second (server list),   *)
 (* then the reply as decoded by the harness's reference decoder.           *)
 TSyncRead ==
@@ -475,7 +492,7 @@ TNext ==
      \/ TQueryStats \/ TStatsResp
      \/ TEquipmentResp \/ TCheckInv \/ TBatchBegin \/ TRegisterInBatch \/ TBatchEnd
      \/ TAuthorizeServer \/ TAuthorizeServerResp \/ TServersResp \/ TMigrate \/ TMigrateResp
-     \/ TSyncRead \/ TSyncServers \/ TSyncResp
+     \/ TSyncRead \/ TSyncServers \/ TSyncResp \/ THttp \/ TConns \/ TLogPanics
   /\ InvCheck
 
 TInit ==
